@@ -879,9 +879,11 @@ class MyPyAstVisitor:
             default_is_none = False
 
             # Get type information for parameter
-            if mypy_type is None:  # pragma: no cover
-                raise ValueError("Argument has no type.")
-            elif isinstance(mypy_type, mp_types.AnyType) and not has_correct_type_of_any(mypy_type.type_of_any):
+            if mypy_type is None or (
+                isinstance(mypy_type, mp_types.AnyType) and not has_correct_type_of_any(mypy_type.type_of_any)
+            ):
+                # Mypy leaves the parameters of un-annotated methods without type if their class is generic over a
+                # type variable with value restriction (only the expanded copies of the method get checked).
                 # We try to infer the type through the default value later, if possible
                 pass
             elif (
